@@ -1,13 +1,300 @@
 package main
 
 import (
+	"bufio"
 	"fmt"
+	"os"
+	"path/filepath"
+	"sort"
+	"strconv"
+	"strings"
+	"time"
 )
 
-func runCheck(repo, verif, prop, tier string) int {
-	fmt.Println("check not implemented yet")
-	return 2
+type knownFinding struct {
+	Kind       string // finding | fixed
+	Property   string
+	Obligation string
+	Text       string
 }
 
-func cmdReplay(args []string) int   { return 2 }
+func loadKnownFindings(path string) []knownFinding {
+	var out []knownFinding
+	fh, err := os.Open(path)
+	if err != nil {
+		return nil
+	}
+	defer fh.Close()
+	sc := bufio.NewScanner(fh)
+	for sc.Scan() {
+		ln := strings.TrimSpace(sc.Text())
+		if ln == "" || strings.HasPrefix(ln, "#") {
+			continue
+		}
+		var kf knownFinding
+		switch {
+		case strings.HasPrefix(ln, "finding:"):
+			kf.Kind = "finding"
+			ln = strings.TrimSpace(strings.TrimPrefix(ln, "finding:"))
+		case strings.HasPrefix(ln, "fixed:"):
+			kf.Kind = "fixed"
+			ln = strings.TrimSpace(strings.TrimPrefix(ln, "fixed:"))
+		default:
+			continue
+		}
+		for _, fld := range strings.Fields(ln) {
+			if strings.HasPrefix(fld, "property=") {
+				kf.Property = strings.TrimPrefix(fld, "property=")
+			}
+			if strings.HasPrefix(fld, "obligation=") {
+				kf.Obligation = strings.TrimPrefix(fld, "obligation=")
+			}
+		}
+		kf.Text = ln
+		out = append(out, kf)
+	}
+	return out
+}
+
+var trustedBase = []string{
+	"golang.org/x/tools v0.29.0 go/packages + go/ssa lowering of the Go sources to SSA (go1.23.5 type checker)",
+	"govc itself (/verif/engine): SSA->SMT encoding, heap/slice/map/interface model, loop cutting, frame axioms justified by per-write frame obligations",
+	"SMT solvers z3 5.1.0 (z3-new), z3 4.8.12, cvc5 1.0.3: an 'unsat' answer is taken as a proof",
+	"Go compiler/runtime semantics as modelled: wrap-around integer arithmetic, slice bounds checked against cap, append in place when capacity allows",
+	"standard-library contracts listed under assumptions",
+	"integers in contract expressions and spec functions are mathematical; spec functions must not overflow int64 on their intended domain",
+}
+
+type oblReport struct {
+	Name    string  `json:"name"`
+	Kind    string  `json:"kind"`
+	Status  string  `json:"status"`
+	Solver  string  `json:"solver"`
+	Seconds float64 `json:"seconds"`
+	Pos     string  `json:"pos,omitempty"`
+}
+
+func runCheck(repo, verif, prop, tier string) int {
+	start := time.Now()
+	seed, _ := strconv.Atoi(os.Getenv("VERIF_SEED"))
+	evPath := filepath.Join(verif, "evidence", prop+".json")
+	os.Remove(evPath)
+	fail := func(msg string) int {
+		// a broken check must not look like a pass
+		fmt.Printf("CHECK-ERROR property=%s %s\n", prop, msg)
+		writeJSON(evPath, evidence{PropertyID: prop, Tier: tier, Seed: seed, Level: "other",
+			Coverage: map[string]interface{}{"explanation": "check could not run: " + msg}, WallS: time.Since(start).Seconds(), Violations: 0})
+		return 2
+	}
+	p, err := loadProgram(repo, verif)
+	if err != nil {
+		// the tree does not load (compile error in /repo or in a contract file)
+		return fail("cannot load /repo with -tags verif: " + err.Error())
+	}
+	timeout := 10 * time.Second
+	need := 1
+	if tier == "thorough" {
+		timeout = 60 * time.Second
+		need = 2
+	}
+	reps := generate(p, func(c *Contract) bool { return hasProp(c, prop) })
+	if len(reps) == 0 {
+		return fail("no function under contract is tagged with " + prop)
+	}
+	work := filepath.Join(verif, "work", prop)
+	os.RemoveAll(work)
+	discharge(reps, work, timeout, need, prop)
+
+	known := loadKnownFindings(filepath.Join(verif, "known_findings.txt"))
+	replayDir := filepath.Join(verif, "replays", prop)
+	os.RemoveAll(replayDir)
+
+	var all []oblReport
+	var funcs []string
+	nObl, nDis := 0, 0
+	var solverSecs float64
+	assume := map[string]bool{}
+	var samples []interface{}
+	var violations []string
+	var knownLines []string
+	bySolver := map[string]int{}
+	covers, coverFail := 0, 0
+	for _, r := range reps {
+		funcs = append(funcs, r.Key)
+		if r.Session != nil {
+			for _, a := range r.Session.assumed {
+				assume[a] = true
+			}
+			for _, n := range r.Session.notes {
+				assume["abstraction: "+n] = true
+			}
+		}
+		if c := p.Contracts.Funcs[r.Key]; c != nil && c.Trusted {
+			assume["trusted contract (body not verified): "+r.Key] = true
+			continue
+		}
+		if r.Err != "" {
+			nObl++
+			name := r.Key + "#generate"
+			all = append(all, oblReport{Name: name, Kind: "generate", Status: "error: " + r.Err})
+			rp := writeReplayFile(replayDir, name, prop, nil, r.Err, "")
+			violations = append(violations, fmt.Sprintf("VIOLATION property=%s replay=%s obligation=%s no-failing-input-found", prop, rp, name))
+			continue
+		}
+		for _, o := range r.Obls {
+			if !contains(o.Props, prop) {
+				continue
+			}
+			st := "?"
+			if o.Result != nil {
+				st = o.Result.Status
+				solverSecs += o.Result.Secs
+			}
+			if o.Cover {
+				covers++
+				if st == "unsat" {
+					coverFail++
+					name := o.Name
+					rp := writeReplayFile(replayDir, name, prop, o, "vacuity guard failed: assumptions are contradictory", "")
+					violations = append(violations, fmt.Sprintf("VIOLATION property=%s replay=%s obligation=%s no-failing-input-found", prop, rp, name))
+				}
+				continue
+			}
+			nObl++
+			rep := oblReport{Name: o.Name, Kind: o.Kind, Status: st, Pos: o.Pos}
+			if o.Result != nil {
+				rep.Solver = o.Result.Solver
+				rep.Seconds = round3(o.Result.Secs)
+			}
+			ok := st == "unsat"
+			if ok && need > 1 && !o.Trivial {
+				// thorough: two different solvers must agree
+				n := 0
+				for _, x := range o.All {
+					if x.Status == "unsat" {
+						n++
+					}
+					if x.Status == "sat" {
+						ok = false
+						rep.Status = "solver-disagreement"
+					}
+				}
+				if n < 2 {
+					// a single proof is still a proof; record that the cross-check was not obtained
+					rep.Status = "unsat(1 solver)"
+				}
+			}
+			all = append(all, rep)
+			if ok {
+				nDis++
+				bySolver[rep.Solver]++
+				if len(samples) < 3 && !o.Trivial {
+					samples = append(samples, map[string]string{"obligation": o.Name, "clause": o.Clause, "at": o.Pos, "query_file": o.Query})
+				}
+				continue
+			}
+			// not discharged: known finding?
+			if kf := matchKnown(known, prop, o.Name); kf != nil {
+				knownLines = append(knownLines, fmt.Sprintf("KNOWN-FINDING: property=%s %s", prop, kf.Text))
+				continue
+			}
+			confirmed, rp := replayObligation(p, r, o, prop, replayDir, verif)
+			line := fmt.Sprintf("VIOLATION property=%s replay=%s obligation=%s", prop, rp, o.Name)
+			if !confirmed {
+				line += " no-failing-input-found"
+			}
+			violations = append(violations, line)
+		}
+	}
+	// structural facts (C17): package-level variables and go statements
+	structural := map[string]interface{}{"package_level_variables": p.Globals, "go_statements": p.GoStmts}
+	sort.Strings(funcs)
+	var assumptions []string
+	for a := range assume {
+		assumptions = append(assumptions, a)
+	}
+	sort.Strings(assumptions)
+	for _, h := range p.Contracts.Scan {
+		assumptions = append(assumptions, "contract-file scan hit: "+h)
+	}
+	if len(p.Overlaid) > 0 {
+		assumptions = append(assumptions, "contract files missing from the tree were injected from /verif/contracts through an overlay: "+strings.Join(p.Overlaid, ", "))
+	}
+	level := "proof"
+	if nDis == 0 {
+		level = "other"
+	}
+	cov := map[string]interface{}{
+		"obligations":              nObl,
+		"discharged":               nDis,
+		"checker_cmd":              fmt.Sprintf("/verif/bin/govc check --property %s --tier %s", prop, tier),
+		"trusted_base":             trustedBase,
+		"functions_under_contract": funcs,
+		"obligation_results":       all,
+		"discharged_by_solver":     bySolver,
+		"solver_seconds":           round3(solverSecs),
+		"vacuity_guards":           map[string]int{"covers_run": covers, "covers_refuted": coverFail},
+		"samples":                  samples,
+		"structure":                structural,
+		"integers":                 "Go machine integers modelled as mathematical Int with explicit wrap-around at every operation",
+		"explanation":              "every obligation generated from /repo's current SSA for the functions tagged with this property; discharged = unsat from an SMT solver",
+	}
+	ev := evidence{PropertyID: prop, Tier: tier, Seed: seed, Level: level, Coverage: cov, Assumptions: assumptions,
+		WallS: round3(time.Since(start).Seconds()), Violations: len(violations)}
+	if err := writeJSON(evPath, ev); err != nil {
+		fmt.Println("cannot write evidence:", err)
+		return 2
+	}
+	for _, l := range knownLines {
+		fmt.Println(l)
+	}
+	fmt.Printf("property %s tier %s: %d obligations, %d discharged, %d functions, %.1fs\n", prop, tier, nObl, nDis, len(funcs), time.Since(start).Seconds())
+	if len(violations) > 0 {
+		for _, v := range violations {
+			fmt.Println(v)
+		}
+		return 1
+	}
+	return 0
+}
+
+func round3(x float64) float64 { return float64(int(x*1000+0.5)) / 1000 }
+
+func matchKnown(known []knownFinding, prop, obl string) *knownFinding {
+	for i := range known {
+		k := &known[i]
+		if k.Kind == "finding" && k.Property == prop && k.Obligation == obl {
+			return k
+		}
+	}
+	return nil
+}
+
+func writeReplayFile(dir, name, prop string, o *Obligation, reason, test string) string {
+	os.MkdirAll(dir, 0o755)
+	path := filepath.Join(dir, sanitizeFile(name)+".json")
+	m := map[string]interface{}{"property": prop, "obligation": name, "reason": reason}
+	if o != nil {
+		m["clause"] = o.Clause
+		m["at"] = o.Pos
+		m["kind"] = o.Kind
+		m["query_file"] = o.Query
+		m["model"] = o.Model
+		var outs []map[string]interface{}
+		for _, r := range o.All {
+			out := r.Output
+			if len(out) > 2000 {
+				out = out[:2000]
+			}
+			outs = append(outs, map[string]interface{}{"solver": r.Solver, "status": r.Status, "seconds": round3(r.Secs), "output": out})
+		}
+		m["solver_outputs"] = outs
+	}
+	if test != "" {
+		m["replay_test"] = test
+	}
+	writeJSON(path, m)
+	return path
+}
+
 func cmdSelftest(args []string) int { return 2 }
